@@ -17,24 +17,26 @@ EXPECT = {
     "no_seal": ("MUT_resolve.cfg", ["P_C07_Resolve"]),
     "resolve_marker_value": ("MUT_resolve.cfg", ["P_C07_Resolve"]),
     "markers_not_lowest": ("MUT_resolve.cfg", ["P_C07_Resolve", "I_C01_Converge", "P_C12_NoDocChange"]),
-    "no_merge": ("MUT_resolve.cfg", ["I_C06_ArrayView"]),
-    "ghosts": ("MUT_resolve.cfg", ["I_C06_ArrayView"]),
+    "no_merge": ("SIM:MUT_deep.cfg", ["I_C06_ArrayView"]),
+    "ghosts": ("SIM:MUT_deep.cfg", ["I_C06_ArrayView"]),
     "no_autoresolve": ("MUT_resolve.cfg", ["P_C12_NoDocChange", "I_C01_Converge", "I_C03_Durable", "I_C06_ArrayView"]),
     "unstage_keeps_new": ("MUT_resolve.cfg", ["P_C15_Unstage"]),
     "snapshot_unmerged": ("MUT_resolve.cfg", ["P_C12_NoDocChange"]),
-    "first_parent_only": ("MUT_travel.cfg", ["P_C14_Travel"]),
+    "first_parent_only": ("MUT_travel.cfg", ["P_C14_Travel", "I_C13_Graph"]),
 }
 only = sys.argv[1:] or sorted(EXPECT)
 ok = True
 for bug in only:
     cfgname, expected = EXPECT[bug]
+    sim = cfgname.startswith("SIM:")
+    cfgname = cfgname.replace("SIM:", "")
     cfg = open(os.path.join(SPEC, "mc", cfgname)).read().replace("Bug = {}", 'Bug = {"%s"}' % bug)
-    path = os.path.join(SPEC, "mc", "_mut_%s.cfg" % bug)
+    path = os.path.join("/verif/out", "_mut_%s_%d.cfg" % (bug, os.getpid()))
     open(path, "w").write(cfg)
     meta = tempfile.mkdtemp(prefix="tlcmut", dir="/verif/out")
     cmd = ["timeout", "900", "java", "-Xmx8g", "-XX:+UseParallelGC", "-cp",
            "/opt/veriftools/tla/tla2tools.jar:/opt/veriftools/tla/CommunityModules-deps.jar", "tlc2.TLC",
-           "-workers", os.environ.get("MUT_WORKERS", "12"), "-metadir", meta, "-cleanup", "-noGenerateSpecTE", "-config", path, "MeldaMC.tla"]
+           "-workers", os.environ.get("MUT_WORKERS", "12"), "-metadir", meta, "-cleanup", "-noGenerateSpecTE", "-config", path] + (["-simulate", "num=300000", "-depth", "15"] if sim else []) + ["MeldaMC.tla"]
     p = subprocess.run(cmd, cwd=SPEC, stdout=subprocess.PIPE, stderr=subprocess.STDOUT, text=True)
     os.remove(path)
     subprocess.run(["rm", "-rf", meta])
